@@ -255,6 +255,24 @@ class World(object):
                     if isinstance(name, str) and "tag" in name:
                         tgt = s2.ghost.get("current_element")
                         tgt = Ref(tgt) if tgt is not None else None
+                    # (a0) an after-hook first READS the status of its element (element.status computes and caches a final value)
+                    starts = [s2]
+                    if s2.ghost.get("hooks_may_peek") and isinstance(name, str) and name.startswith("after_") and name != "after_all" \
+                            and isinstance(tgt, Ref) and isinstance(s2.obj(tgt).cls, ClassInfo) and s2.obj(tgt).cls.lookup("status") is not None:
+                        sp = s2.fork()
+                        peeked = [x for x in it.get_attr(sp, tgt, "status", node) if x[1] == "val"]
+                        for (s_p, _, _) in peeked:
+                            s_p.ghost["hook_peeked_status"] = True
+                            s_p.note("%s: hook %s reads the status of its element" % (it.loc(node), name))
+                            starts.append(s_p)
+                    if len(starts) > 1:
+                        outs_all = []
+                        for s_start in starts[1:]:
+                            s_start.ghost["hooks_may_peek"] = False
+                            outs_all.extend(self.hook_summary(it, s_start, name, target, node))
+                        for (s_x, _, _) in outs_all:
+                            s_x.ghost["hooks_may_peek"] = True
+                        outs.extend(outs_all)
                     # (a) returns normally
                     sa = s2.fork()
                     it.emit(sa, ("hook", name, tgt.oid if isinstance(tgt, Ref) else None, False))
